@@ -11,7 +11,7 @@ typedef struct S_class_2estd_3a_3a__cxx11_3a_3abasic_string vstr;
 #define VS_LOCAL(s) (VS_P(s) == VS_SSO(s))
 /* a fresh SSO buffer is zero-filled (its bytes beyond the string are unspecified in the real library): with a constant
    start value CBMC's constant propagation sees short constant strings as constants instead of updates of garbage */
-#define VS_ZERO_SSO(s) do { (s)->f2.f0 = 0; ((uint64_t*)VS_SSO(s))[1] = 0; } while (0)
+#define VS_ZERO_SSO(s) ((s)->f2.f0 = 0, ((uint64_t*)VS_SSO(s))[1] = 0)
 /* byte copy with a symbolic length: a bounded loop of guarded byte stores (a symbolic-size memcpy makes CBMC's
    byte-operator flattening explode); lengths above VF_MAXCOPY are outside every harness's bounds and asserted */
 #ifndef VF_MAXCOPY
